@@ -130,6 +130,8 @@ pub struct Driver {
     /// seqnos of version-changing ops done with watermark tight while no snapshot was held
     pub last_op_info: OpInfo,
     pub value_tag: u8,
+    /// every op applied so far (lets an oracle replay the history on a twin)
+    pub history: Vec<Op>,
 }
 
 #[derive(Clone, Debug, Default)]
@@ -195,6 +197,7 @@ impl Driver {
             filter_log,
             last_op_info: OpInfo::default(),
             value_tag: b'v',
+            history: vec![],
         };
         d.open()?;
         Ok(d)
@@ -339,6 +342,7 @@ impl Driver {
     /// an error returned by the tree is recorded in `last_op_info.err`.
     pub fn apply(&mut self, op: &Op) -> OpInfo {
         let before = self.fingerprint();
+        self.history.push(op.clone());
         let mut info = OpInfo::default();
         let log_before = self
             .filter_log
